@@ -80,7 +80,18 @@ def run(ctx, mod, args):
         ctx.theorems = vlib.theorem_names(mod.PROPS_FILE)
 
     # 2.+3. correspondence and property oracles on the implementation (corpus first)
-    mod.correspondence(ctx)
+    try:
+        mod.correspondence(ctx)
+    except (vlib.subprocess.TimeoutExpired, KeyboardInterrupt):
+        raise
+    except Exception as e:
+        # the implementation did something the adapter does not expect (an exception escaping the code under test, an
+        # output it cannot canonicalise): the correspondence cannot be established -> a broken tie, not a harness crash;
+        # violations recorded before the exception are still reported, otherwise the search runs
+        tb = traceback.format_exc()
+        ctx.notes.append("correspondence aborted by an exception:\n" + tb[-1500:])
+        ctx.disagreements.append({"where": f"exception:{type(e).__name__}", "case": {"traceback": tb[-1500:]},
+                                  "model": "(correspondence completes)", "impl": f"{type(e).__name__}: {str(e)[:300]}"})
 
     # 4. search when a proof or the correspondence broke and nothing concrete was found yet
     searched = False
@@ -88,7 +99,12 @@ def run(ctx, mod, args):
         searched = True
         reason = "proof" if ctx.proof_problems else "correspondence"
         if hasattr(mod, "search"):
-            mod.search(ctx, reason)
+            try:
+                mod.search(ctx, reason)
+            except (vlib.subprocess.TimeoutExpired, KeyboardInterrupt):
+                raise
+            except Exception:
+                ctx.notes.append("search aborted by an exception:\n" + traceback.format_exc()[-1500:])
     return report(ctx, mod, searched)
 
 
